@@ -25,6 +25,30 @@ def _vars(node):
     return [n.name for n in astutil.walk(node) if n.ast_type == ASTType.Variable and n.name != "_"]
 
 
+def _func_wrap(stms, base):
+    """wrap one argument position of a derived predicate in f(.) consistently (heads and bodies)"""
+    from clingo.ast import Function, Transformer
+
+    defined = sorted(astutil.defined_sigs(stms))
+    out = []
+    for name, ar in defined[:3]:
+        for k in range(min(ar, 2)):
+            class T(Transformer):
+                def visit_SymbolicAtom(self, atom):
+                    t = atom.symbol
+                    if t.ast_type == ASTType.Function and t.name == name and len(t.arguments) == ar:
+                        args = list(t.arguments)
+                        args[k] = Function(t.location, "f", [args[k]], False)
+                        return atom.update(symbol=t.update(arguments=args))
+                    return atom
+
+            try:
+                out.append((f"func_{name}{k}", "\n".join(str(T().visit(s)) for s in stms)))
+            except Exception:  # noqa
+                pass
+    return out
+
+
 def variants(text, max_per_program=60):
     """list of (tag, program text)"""
     try:
@@ -96,6 +120,47 @@ def variants(text, max_per_program=60):
             if len(body) > 1:
                 emit("reverse_min", i, re.sub(r"^:~ .*?\. \[", ":~ " + "; ".join(body[::-1]) + ". [", base[i], count=1))
             emit("dup_min", i, base[i], [re.sub(r"^:~ (.*?)\. \[", lambda m: ":~ " + m.group(1) + "; vy__. [", base[i], count=1)])
+    # ---- whole-program operators
+    out += _func_wrap(stms, base)
+    for i, s in enumerate(stms):
+        if s.ast_type == ASTType.Rule:
+            head = "" if (s.head.ast_type == ASTType.Literal and s.head.atom.ast_type == ASTType.BooleanConstant and not s.head.atom.value) else str(s.head)
+            body = [str(b) for b in s.body]
+            for j, b in enumerate(s.body):
+                if b.ast_type == ASTType.Literal and b.atom.ast_type == ASTType.BodyAggregate and b.atom.elements:
+                    n = len(b.atom.elements[0].terms)
+                    if n >= 1:
+                        tv = ",".join(f"W{k}__" for k in range(n))
+                        sib1 = str(b).rstrip()[:-1].rstrip() if str(b).rstrip().endswith("}") else None
+                        txt = str(b)
+                        close = txt.rfind("}")
+                        if close > 0:
+                            emit(f"sibling_var{j}", i, _rule(head, body[:j] + [txt[:close] + f"; {tv}: vs__({tv}) " + txt[close:]] + body[j + 1:]))
+                            emit(f"sibling_const{j}", i, _rule(head, body[:j] + [txt[:close] + "; " + ",".join(["1"] * n) + ": vy__ " + txt[close:]] + body[j + 1:]))
+                            if n >= 2:
+                                emit(f"sibling_arith{j}", i, _rule(head, body[:j] + [txt[:close] + "; W0__," + ",".join(f"W{k}__+1" for k in range(1, n)) + f": vs__({tv}) " + txt[close:]] + body[j + 1:]))
+            hg = None
+            if s.head.ast_type == ASTType.Aggregate and len(s.head.elements) == 1:
+                lg, rg_ = s.head.left_guard, s.head.right_guard
+                if rg_ is not None and lg is None and "LessEqual" in str(rg_.comparison):
+                    hg = rg_
+                elif lg is not None and rg_ is None and "GreaterEqual" in str(lg.comparison):
+                    hg = lg
+            if hg is not None:
+                e = s.head.elements[0]
+                lit, cond = str(e.literal), "; ".join(str(c) for c in e.condition)
+                vs = [v for v in _vars(e.literal)]
+                tup = ",".join(vs) if vs else "x"
+                rg = str(hg.term)
+                for fn, w in (("#sum", "1"), ("#count", None), ("#max", "1"), ("#sum", "2")):
+                    terms = (w + "," + tup) if w else tup
+                    emit(f"headagg_{fn[1:]}{w or ''}", i, _rule(f"{fn} {{ {terms} : {lit}" + (f" : {cond}" if cond else "") + f" }} <= {rg}", body))
+        elif s.ast_type == ASTType.Minimize:
+            n = len(s.terms)
+            tv = ",".join(f"W{k}__" for k in range(n))
+            emit("objsibling", i, base[i], [f":~ vs__(W__{',' + tv if tv else ''}). [W__@{s.priority}{',' + tv if tv else ''}]"])
+            if n:
+                emit("objsibling_arith", i, base[i], [f":~ vs__(W__,{tv}). [W__@{s.priority}," + ",".join(f"W{k}__+1" for k in range(n)) + "]"])
     if len(base) > 1:
         out.append(("oneline", " ".join(base)))
     # deterministic order, bounded
